@@ -50,6 +50,8 @@ def check_bed(spec, ctx):
         ctx.label("coding")
     if strand == "-":
         ctx.label("minus")
+    if spec.get("big_coordinates"):
+        ctx.label("coordinates>=10^6")
     if any(blocks[i][1] == blocks[i + 1][0] for i in range(len(blocks) - 1)):
         ctx.label("touching_blocks")
     name_sel = spec["name"]
@@ -154,6 +156,16 @@ def strat_bed(draw, tier="quick"):
     cs = draw(st.sampled_from([0, lo, max(0, lo - 1)] + list(range(0, lo + 1))))
     ce = draw(st.sampled_from([hi, n] + list(range(hi, n + 1))))
     cutting = draw(st.integers(0, 4)) == 0 and hi - lo >= 2
+    big = draw(st.integers(0, 7)) == 0
+    if big:
+        # coordinates of realistic size (a record far into a chromosome): no sequence is needed for a BED record
+        sh_ = draw(st.sampled_from([10 ** 6 - 3, 10 ** 6, 123456789, 2 ** 31 + 7]))
+        for key_ in ("exons", "cds", "blocks"):
+            if key_ in obj:
+                obj[key_] = [[b_[0] + sh_, b_[1] + sh_] for b_ in obj[key_]]
+        return {"kind": kind, "obj": obj, "genome": "A", "chunk": [0, 1], "parent": "none", "cutting_chunk": False, "other_mode_first": draw(st.booleans()),
+                "chunk_strand": "+", "mode": draw(st.sampled_from(["chrom", "chunk"])), "name": draw(st.sampled_from(names)), "score": draw(st.integers(0, 1000)),
+                "rgb": [draw(st.integers(0, 255)) for _ in range(3)], "big_coordinates": True}
     if cutting:
         # a chunk that cuts the interval (or holds only part of its exons): the record in CHROMOSOME coordinates is the
         # whole-chromosome record all the same (chunk-relative export of such a chunk is outside the property's "exported blocks")
@@ -177,7 +189,7 @@ PROP = Prop(
     pid="C14",
     legs=[
         Leg("bed12", check_bed, strategy=strat_bed, examples=EX, n_quick=1500, n_thorough=15000,
-            must_hit=["chunk_relative&cs>0", "coding", "minus", "touching_blocks", "chunk_relative&minus_chunk", "unstranded", "cutting_chunk_chromosome_mode"],
+            must_hit=["chunk_relative&cs>0", "coding", "minus", "touching_blocks", "chunk_relative&minus_chunk", "unstranded", "cutting_chunk_chromosome_mode", "coordinates>=10^6"],
             rule="transcripts (coding or not) and features of 1..5 blocks on both strands x parent {chunk containing the interval, whole chromosome, none} x export mode {chromosome, chunk-relative} x name selector x score x RGB; the text of the record is parsed by an independent 12-column reader"),
     ],
     rule="Oracle: BED12 format invariants + decoding back to blocks/strand/name/CDS bounds. Non-trivial: >=2 blocks and (chunk-relative with chunk start > 0, or coding).",
